@@ -418,7 +418,7 @@ func (br *bRun) judge(replay map[string]any, finalNext int64, closeOp *cOp) bool
 	}
 	var pubs []*cOp
 	for _, a := range br.actors {
-		if a.kind == "publisher" && a.op.Done {
+		if a.kind == "publisher" && br.isDone(a.op) {
 			pubs = append(pubs, a.op)
 		}
 	}
@@ -436,7 +436,7 @@ func (br *bRun) judge(replay map[string]any, finalNext int64, closeOp *cOp) bool
 			continue
 		}
 		o := a.op
-		if !o.Done {
+		if !br.isDone(o) {
 			continue // handled by the quiescence oracle
 		}
 		br.cov.Add("evaluations", 1)
@@ -460,7 +460,7 @@ func (br *bRun) judge(replay map[string]any, finalNext int64, closeOp *cOp) bool
 					continue
 				}
 				if (b.kind == "publisher" || b.kind == "closer") && b.op.Call != 0 && b.op.Call < o.Ret {
-					if !b.op.Done || b.op.Ret > o.Call {
+					if !br.isDone(b.op) || b.op.Ret > o.Call {
 						woken = true
 					}
 				}
@@ -518,7 +518,7 @@ func (br *bRun) judge(replay map[string]any, finalNext int64, closeOp *cOp) bool
 	h := &concHist{id: br.id, cfg: ref.IndexCfg{Keys: true}}
 	h.ops = append(h.ops, br.preset...)
 	for _, a := range br.actors {
-		if a.op == nil || !a.op.Done {
+		if a.op == nil || !br.isDone(a.op) {
 			continue
 		}
 		switch a.kind {
@@ -693,7 +693,7 @@ func runBScenario(cfg *RunCfg, rep *Reporter, cov *Cov, idx int, sc bScenario) {
 	nx, err := br.presetPublish(2)
 	if err != nil || nx != 2 {
 		rep.Inconclusive("preset publish failed")
-		l.Close()
+		c18Close(l, rep)
 		return
 	}
 	next := nx
@@ -716,7 +716,7 @@ func runBScenario(cfg *RunCfg, rep *Reporter, cov *Cov, idx int, sc bScenario) {
 	if sc.reopen {
 		// the wrapper is closed and opened again over the log that now has content: its notifier
 		// must start at the log's NextOffset
-		if err := l.Close(); err != nil {
+		if err := c18Close(l, rep); err != nil {
 			rep.Inconclusive("close before reopen failed")
 			return
 		}
@@ -898,7 +898,7 @@ func runBScenario(cfg *RunCfg, rep *Reporter, cov *Cov, idx int, sc bScenario) {
 			finalNext = a.op.Next
 		}
 	}
-	closeReturned := closeOp != nil && closeOp.Done
+	closeReturned := closeOp != nil && br.isDone(closeOp)
 	if closeOp == nil {
 		// ground truth: a Publish that failed may still have appended
 		if nx, err := kNext(l.Raw()); err == nil && nx > finalNext {
@@ -930,7 +930,7 @@ func runBScenario(cfg *RunCfg, rep *Reporter, cov *Cov, idx int, sc bScenario) {
 		ok = br.judge(replay, finalNext, closeOp)
 	}
 	if !closeReturned {
-		l.Close()
+		c18Close(l, rep)
 	}
 	cov.Add("ctrl.scenarios", 1)
 	if arrived {
@@ -989,10 +989,10 @@ func runBReadonly(cfg *RunCfg, rep *Reporter, cov *Cov, idx int) {
 		}
 		br.l = w
 		if _, err := br.presetPublish(n); err != nil {
-			w.Close()
+			c18Close(w, rep)
 			return
 		}
-		w.Close()
+		c18Close(w, rep)
 	} else {
 		os.MkdirAll(br.dir, 0o700) // an empty directory: the handle is served by a synthetic segment
 	}
@@ -1020,7 +1020,7 @@ func runBReadonly(cfg *RunCfg, rep *Reporter, cov *Cov, idx int) {
 			report("below-not-immediate", fmt.Sprintf("ConsumeBlocking(%d) on a read-only handle with NextOffset %d did not return the message at once: %s %s", next-1, next, st, below.op))
 			below.cancel()
 			settle(below, 20000)
-			l.Close()
+			c18Close(l, rep)
 			return
 		}
 	}
@@ -1034,7 +1034,7 @@ func runBReadonly(cfg *RunCfg, rep *Reporter, cov *Cov, idx int) {
 			report("not-parked:"+w.cls, fmt.Sprintf("ConsumeBlocking(%d) on a read-only handle with NextOffset %d returned (%s %s) although no Publish, Close or cancel happened", w.off, next, st, a.op))
 			a.cancel()
 			settle(a, 20000)
-			l.Close()
+			c18Close(l, rep)
 			return
 		}
 		a.cancelCall.Store(nowNS())
@@ -1042,12 +1042,12 @@ func runBReadonly(cfg *RunCfg, rep *Reporter, cov *Cov, idx int) {
 		a.cancel()
 		if st := settle(a, 20000); st != "done" || a.op.Err != "ctx-canceled" {
 			report("cancel:wrong-result", fmt.Sprintf("a parked waiter on a read-only handle whose context was cancelled returned %s %q (%s)", a.op, a.op.ErrText, st))
-			l.Close()
+			c18Close(l, rep)
 			return
 		}
 		cov.Add("c18.readonly_parked_then_cancelled", 1)
 	}
-	if err := l.Close(); err != nil {
+	if err := c18Close(l, rep); err != nil {
 		report("close-error", "Close of a read-only blocking handle failed: "+errText(err))
 		return
 	}
@@ -1075,7 +1075,7 @@ func runBPerturb(cfg *RunCfg, rep *Reporter, cov *Cov, idx int) {
 	next, _ := br.presetPublish(1 + r.Intn(3))
 	if idx%5 == 4 {
 		// closed and reopened over the existing log (alternating constructor)
-		if l.Close() != nil {
+		if c18Close(l, rep) != nil {
 			return
 		}
 		if l, err = openBlock(br.dir, br.typed, idx%2 == 0); err != nil {
@@ -1206,7 +1206,7 @@ func runBPerturb(cfg *RunCfg, rep *Reporter, cov *Cov, idx int) {
 			time.Sleep(delay)
 			o := a.op
 			o.Call = nowNS()
-			err := l.Close()
+			err := c18Close(l, rep)
 			o.Ret = nowNS()
 			if err != nil {
 				o.Err, o.ErrText = errClass(err), errText(err)
@@ -1248,23 +1248,23 @@ func runBPerturb(cfg *RunCfg, rep *Reporter, cov *Cov, idx int) {
 	}
 	finalNext := next
 	for _, a := range br.actors {
-		if a.kind == "publisher" && a.op.Done && a.op.Err == "" && a.op.Next > finalNext {
+		if a.kind == "publisher" && br.isDone(a.op) && a.op.Err == "" && a.op.Next > finalNext {
 			finalNext = a.op.Next
 		}
 	}
-	closeReturned := closeOp != nil && closeOp.Done
+	closeReturned := closeOp != nil && br.isDone(closeOp)
 	ok := br.quiesce(replay, finalNext, closeReturned)
 	installHook(nil)
 	if ok {
 		br.judge(replay, finalNext, closeOp)
 	}
 	if !closeReturned {
-		l.Close()
+		c18Close(l, rep)
 	}
 	cov.Add("perturb.histories", 1)
 	outc := map[string]int{}
 	for _, a := range br.actors {
-		if a.kind == "waiter" && a.op.Done {
+		if a.kind == "waiter" && br.isDone(a.op) {
 			parked := a.hc.points["notify.wait.beforePark"] > 0
 			cls := fmt.Sprintf("%s|parked=%v|err=%s|n=%d", a.offCls, parked, a.op.Err, minInt(len(a.op.Out), 2))
 			outc[cls]++
@@ -1336,4 +1336,68 @@ func fillC18Evidence(cov *Cov, ev *Evidence) {
 	ev.Coverage["hook_points_hit_in_perturb"] = cov.Counts("points.")
 	ev.Coverage["porcupine"] = cov.Counts("porcupine.")
 	ev.Coverage["samples"] = cov.Samples()
+}
+
+// c18Close: Close from a quiescent harness must return. "Stuck" is decided on goroutine states, not
+// on time: the closing goroutine and every other goroutine inside the library are parked in 20
+// consecutive snapshots (100 ms apart), so nothing is left that could let the call go on.
+func c18Close(l interface{ Close() error }, rep *Reporter) error {
+	done := make(chan error, 1)
+	gch := make(chan int64, 1)
+	go func() {
+		gch <- goid()
+		done <- guard(l.Close)
+	}()
+	gid := <-gch
+	quiet := 0
+	for polls := 1; ; polls++ {
+		select {
+		case err := <-done:
+			return err
+		default:
+		}
+		if polls%50 == 0 {
+			ws := waitStates()
+			st, ok := ws[gid]
+			all := ok && isBlockedState(st[0])
+			for id, w := range ws {
+				if all && id != gid && w[1] != "" && !isBlockedState(w[0]) {
+					all = false
+				}
+			}
+			if all {
+				quiet++
+			} else {
+				quiet = 0
+			}
+			if quiet >= 20 {
+				rep.Report(Violation{Property: "C18", Sig: "concmon|close-stuck", What: fmt.Sprintf("Close of a blocking log never returns: it is parked (%s in %s) and so is every other goroutine inside the library (a publish or consume before it left the notifier unusable)", st[0], st[1]), Replay: map[string]any{"close_goroutine": st[0] + " in " + st[1]}})
+				return errors.New("close stuck")
+			}
+			if polls > 150000 {
+				rep.Inconclusive("Close did not return (watchdog, goroutines still running)")
+				return errors.New("close watchdog")
+			}
+		}
+		time.Sleep(2 * time.Millisecond)
+	}
+}
+
+// isDone: "this call has returned", read through the actor's done channel (a plain read of op.Done
+// from the judging goroutine is a data race of the harness with an actor that is just finishing).
+func (br *bRun) isDone(op *cOp) bool {
+	if op == nil {
+		return false
+	}
+	for _, a := range br.actors {
+		if a.op == op {
+			select {
+			case <-a.done:
+				return true
+			default:
+				return false
+			}
+		}
+	}
+	return false
 }
